@@ -173,7 +173,8 @@ def direct_warm_cell(item):
 def client_cell(item):
     cell, text = item[0], item[1]
     bind_repo()
-    if len(item) > 2:
+    before = item[3] if len(item) > 3 else None        # hist = "rewritten": the same file path served this content first
+    if len(item) > 2 and item[2]:
         logging.disable(logging.CRITICAL)
         _prelude(item[2])
     from geophires_x_client import GeophiresXClient
@@ -186,7 +187,7 @@ def client_cell(item):
     cwd0, argv0 = os.getcwd(), list(sys.argv)
     logging.disable(logging.CRITICAL)
     sink = io.StringIO()
-    rec = dict(cell, created=[], json='n/a', prelude=list(item[2]) if len(item) > 2 else [])
+    rec = dict(cell, created=[], json='n/a', prelude=list(item[2]) if len(item) > 2 else [], before=before)
     try:
         os.chdir(root)
         params = GeophiresInputParameters(from_file_path=inp)
@@ -194,6 +195,18 @@ def client_cell(item):
             os.unlink(params.get_output_file_path())
         except OSError:
             pass
+        left = None
+        if before is not None:
+            inp.write_text(before)
+            try:
+                with contextlib.redirect_stdout(sink), contextlib.redirect_stderr(sink):
+                    GeophiresXClient(enable_caching=False).get_geophires_result(GeophiresInputParameters(from_file_path=inp))
+            except Exception:  # noqa: BLE001
+                pass
+            inp.write_text(text)
+            params = GeophiresInputParameters(from_file_path=inp)
+            op = Path(params.get_output_file_path())
+            left = op.read_bytes() if op.exists() else None      # what the earlier request left at the result path
         try:
             with contextlib.redirect_stdout(sink), contextlib.redirect_stderr(sink):
                 r = GeophiresXClient(enable_caching=False).get_geophires_result(params)
@@ -206,7 +219,7 @@ def client_cell(item):
             rec['signal'] = 'raised'
             rec['digest'] = 'none'
             op = Path(params.get_output_file_path())
-            if op.exists() and op.stat().st_size > 0:
+            if op.exists() and op.stat().st_size > 0 and op.read_bytes() != left:
                 rec['created'] = [['tmp', op.name]]
     finally:
         os.chdir(cwd0)
@@ -298,7 +311,7 @@ def judge(res: Result, direct: dict, recs: list, mc_recs: list, texts: dict, fai
             wit = [w for w in vd['w'] if w.get('clause') == c][:1]
             res.violation({'clause': c, 'entry': t['entry'], 'arg': t['arg'], 'hist': t['hist'], 'input': t['input']},
                           f"{c} fails for {t['entry']}/{t['arg']}/{t['dir']}/{t['hist']} on {t['input']}: {json.dumps(wit)[:300]} {rec.get('stderr', '')[-120:]}",
-                          {'cell': t, 'input_text': texts[t['input']], 'prelude': rec.get('prelude', [])})
+                          {'cell': t, 'input_text': texts[t['input']], 'prelude': rec.get('prelude', []), 'before': rec.get('before')})
     return counts, traces, verdicts
 
 
@@ -360,6 +373,8 @@ def run(tier: str) -> int:
                 continue
             if c['input'] == 'fail_calc' and not ident.startswith('failcalc'):
                 continue
+            if c['hist'] == 'rewritten' and (c['dir'] != 'd1' or ident.startswith(('sparse', 'explicit', 'ex:'))):
+                continue        # the generated families and their failing variants do
             if c['hist'] == 'warm' and (not ident.startswith('sparse') or c['dir'] != 'd1'):
                 continue        # a warmed-up process matters for inputs that lean on defaults; the others name their values
             if c['arg'] in ('relative_tilde', 'relative_link') and (c['dir'] != 'd1' or ident.startswith(('sparse', 'explicit'))):
@@ -369,7 +384,10 @@ def run(tier: str) -> int:
             if c['entry'] == 'cli':
                 items_cli.append((cell, texts[ident]))
             elif c['entry'] == 'client' and c['dir'] == 'd1':
-                items_client.append((cell, texts[ident]) if c['hist'] == 'cold' else (cell, texts[ident], rich))
+                if c['hist'] == 'rewritten':
+                    items_client.append((cell, texts[ident], [], texts['ok1' if ident != 'ok1' else 'ok0']))
+                else:
+                    items_client.append((cell, texts[ident]) if c['hist'] == 'cold' else (cell, texts[ident], rich))
             elif c['entry'] == 'direct' and c['hist'] == 'warm':
                 items_warm.append((cell, texts[ident], rich))
             elif c['entry'] == 'mc' and c['dir'] == 'd1' and c['input'] in ('ok1', 'fail_read') and (tier == 'thorough' or ident in ('ok0', 'failread0', 'ex:example1')):
@@ -384,7 +402,7 @@ def run(tier: str) -> int:
     res.cov['cells_and_clauses'] = counts
     res.sample({'cell': traces[0], 'verdict': verdicts[1]})
     res.sample({'cell': traces[len(traces) // 2]})
-    for need in ('C20_same', 'C20_json_same', 'C20_where', 'C20_fail', 'entry:cli', 'entry:client', 'entry:mc', 'entry:direct', 'hist:warm'):
+    for need in ('C20_same', 'C20_json_same', 'C20_where', 'C20_fail', 'entry:cli', 'entry:client', 'entry:mc', 'entry:direct', 'hist:warm', 'hist:rewritten'):
         if not counts.get(need):
             raise MachineryFailure(f'C20: {need} never exercised')
     res.exhaustive = False
@@ -408,7 +426,8 @@ def replay(path: str) -> int:
     if t['entry'] == 'cli':
         recs = [cli_cell((cell, text))]
     elif t['entry'] == 'client':
-        recs = sim.call_in_pool('harness.c20:client_cell', [(cell, text, rp['prelude']) if rp.get('prelude') else (cell, text)], procs=1)
+        item = (cell, text, rp.get('prelude') or [], rp['before']) if rp.get('before') else (cell, text, rp['prelude']) if rp.get('prelude') else (cell, text)
+        recs = sim.call_in_pool('harness.c20:client_cell', [item], procs=1)
     elif t['entry'] == 'direct' and t.get('hist') == 'warm':
         recs = sim.call_in_pool('harness.c20:direct_warm_cell', [(cell, text, rp.get('prelude', []))], procs=1)
     elif t['entry'] == 'mc':
